@@ -191,8 +191,13 @@ LIVE_ATTRS = {'inertia_moment': 'InertiaMoment', 'no_load_speed': 'AngularSpeed'
               'reference_diameter': 'Length'}
 
 
-def execute(s, live=None):
+CALLBACK_ARGS = {'time': 'Time', 'angular_position': 'AngularPosition', 'angular_speed': 'AngularSpeed'}
+
+
+def execute(s, live=None, callback=None):
     """Build, run the schedule; return ('ok', observation, snapshot) or (phase, exception class).
+    callback = (argument name, unit): the user's load function re-expresses that argument IN PLACE (the same physical
+    value, written in another unit) every time it is consulted -- the objects it is handed are the solver's own.
     live = (element index, attribute, unit): after construction the quantity the element's property hands out is
     converted IN PLACE to that unit by the user (same magnitude), before anything is simulated."""
     spec = {'elements': s['elements'], 'links': s['links'], 'init': s['init'], 'load_unit': s['load_unit']}
@@ -206,6 +211,14 @@ def execute(s, live=None):
             q.to(live[2], inplace=True)
         except Exception as ex:
             return ('live-conversion', type(ex).__name__, str(ex)[:120])
+    if callback is not None:
+        good = m.elements[-1].external_torque
+
+        def reexpressing_load(time, angular_position, angular_speed):
+            r = good(time=time, angular_position=angular_position, angular_speed=angular_speed)
+            {'time': time, 'angular_position': angular_position, 'angular_speed': angular_speed}[callback[0]].to(callback[1], inplace=True)
+            return r
+        m.elements[-1].external_torque = reexpressing_load
     stall = menu.stall_at_output(spec)
     lf = s['loadf']
     m.load = ['mix', lf[1] * stall, lf[2] * stall, lf[3] * stall, lf[4] * stall]
@@ -388,6 +401,25 @@ def check_live(acc, name, base_s, base_res, i, attr, kind, unit):
     acc.nstates += 1
 
 
+def check_callback(acc, name, base_s, base_res, arg, unit):
+    """The load function converts one of the quantities it is handed in place, at every instant."""
+    case = {'kind': 'callback', 'model': name, 'arg': arg, 'unit': unit}
+    res = execute(copy.deepcopy(base_s), callback=(arg, unit))
+    acc.executions += 1
+    acc.transitions += 1
+    if res[0] != 'ok':
+        acc.violation(f'C07/load-function-reexpresses/{arg}/{res[0]}-fails/{res[1]}', 're-expressing an input never changes whether construction and simulation succeed',
+                      case, {'phase': res[0], 'exception': res[1], 'message': res[2]})
+        acc.outcomes[('failed', name)] += 1
+        return
+    d = differ(base_res, res)
+    acc.outcomes[('equal' if d is None else 'differs', name, CALLBACK_ARGS[arg], 'load-function-argument-in-place')] += 1
+    if d is not None:
+        acc.violation(f'C07/load-function-reexpresses/{arg}/{d[0]}', 're-expressing an input changes no physical output beyond rounding', case, dict(d[1], unit=unit))
+        return
+    acc.nstates += 1
+
+
 INTERACTING = [('m', 'm'), ('beta', 'beta'), ('alpha', 'alpha'), ('beta', 'alpha'), ('dt', 'T'), ('i0', 'imax'),
                ('start', 'duration'), ('dt', 'dt'), ('T', 'T'), ('target', 'brake'), ('theta', 'w'), ('dt', 'start'),
                ('limit', 'imax'), ('b', 'd'), ('m', 'd')]
@@ -432,7 +464,11 @@ def run_shard(shard, tier):
             alts = [u for u in si.UNITS[kind] if u != u0]
             for u in (alts if tier != 'quick' else alts[:2]):
                 check_live(acc, name, base_s, base_res, i, attr, kind, u)
-        acc.sample({'model': name, 'mode': 'a quantity handed out by a built element converted in place, then a fresh model'})
+        for arg, kind in CALLBACK_ARGS.items():
+            for u in si.UNITS[kind]:
+                check_callback(acc, name, base_s, base_res, arg, u)
+        acc.sample({'model': name, 'mode': 'a quantity handed out by a built element converted in place, then a fresh model; '
+                                           'an argument of the load function converted in place at every instant'})
     else:
         p, P = shard['part']
         idx = 0
@@ -459,6 +495,11 @@ def replay(case):
         base_s, err = prepare(case['model'])
         base_res = execute(base_s)
         check_variant(acc, case['model'], base_s, base_res, [(tuple(p), k, u) for p, k, u in case['devs']], inplace=case.get('inplace', False))
+        return acc.violations
+    if case.get('kind') == 'callback':
+        base_s, err = prepare(case['model'])
+        base_res = execute(base_s)
+        check_callback(acc, case['model'], base_s, base_res, case['arg'], case['unit'])
         return acc.violations
     if case.get('kind') == 'live':
         base_s, err = prepare(case['model'])
